@@ -6,6 +6,8 @@
 -/
 import PV.Model.ChanPairLemmas
 import PV.Model.ChanDrainLemmas
+import PV.Model.ChanNotifyLemmas
+import PV.Generated.ChanLock
 namespace PV.Props.C20
 open PV.Chan PV.ChanPair
 
@@ -236,6 +238,70 @@ example :
     mu y = 16149 ∧
     mu (prun fixedCfg y [.deliverAB 1 1, .right (.recv 0 5000 false), .right (.check 0), .right (.emit 0),
                          .deliverBA 1 0]) = 20 := by
+  decide +kernel
+
+/-! ## several parked senders: nobody is left asleep (notify_all vs notify) -/
+
+/-- how the code wakes sleepers, read from the table generated from the AST of channel.py on this run: a call
+    site counts as "all" only if EVERY `out_buffer_cv.notify…` call in that method is `notify_all` -/
+def codeNCfg : NCfg :=
+  { adjustAll := (PV.Generated.ChanLock.notifies.filter (·.caller == "_window_adjust")).all (·.all) &&
+                 !(PV.Generated.ChanLock.notifies.filter (·.caller == "_window_adjust")).isEmpty,
+    closeAll := (PV.Generated.ChanLock.notifies.filter (·.caller == "_set_closed")).all (·.all) &&
+                !(PV.Generated.ChanLock.notifies.filter (·.caller == "_set_closed")).isEmpty }
+
+/-- **`_window_adjust` and `_set_closed` wake ALL sleepers, under the channel lock** (every
+    `out_buffer_cv.notify…` call site of channel.py, regenerated from the source on every run). -/
+theorem wakeups_notify_all :
+    codeNCfg.adjustAll = true ∧ codeNCfg.closeAll = true ∧
+    ∀ n ∈ PV.Generated.ChanLock.notifies, n.effLocked = true := by
+  decide
+
+/-- **No lost wake-up, any number of parked senders, every schedule** (strict scheduling: a sleeper runs again
+    only when notified or timed out): a sender asleep in `_wait_for_send_window` that has no notification pending
+    sees `out_window_size = 0`.  Hence whenever the window is open — in particular in every drained state of an
+    open channel (`drained_sender_window_open`) — EVERY parked sender has been notified, will run
+    (`notified_sleeper_is_enabled`) and, on an open channel, leaves with a reservation
+    (`quiescent_sender_proceeds`, which is per thread). -/
+theorem no_lost_wakeup (cfg : Cfg) (inWin peerWin peerMax nthr : Nat) (c : Bool) (sched : List Act) (t : Nat) :
+    let z := nrun codeNCfg cfg (ninit (init inWin peerWin peerMax nthr c)) sched
+    isWaitingAt z.base t = true → 0 < z.base.outWin → t ∈ z.sig := by
+  intro z hw ho
+  have h0 : NoLost (ninit (init inWin peerWin peerMax nthr c)) := by
+    intro u hu _
+    simp only [ninit, isWaitingAt, init] at hu
+    by_cases hlt : u < nthr
+    · simp [hlt, TSt.isWaiting] at hu
+    · simp [hlt] at hu
+  have hi := nrun_nolost codeNCfg wakeups_notify_all.1 cfg _ sched h0
+  cases hm : decide (t ∈ z.sig) with
+  | true => exact of_decide_eq_true hm
+  | false =>
+    have : z.base.outWin = 0 := hi t hw (of_decide_eq_false hm)
+    omega
+
+/-- a notified sleeper is not held back by the strict scheduler: its wake-up executes the base model's region -/
+theorem notified_sleeper_is_enabled (n : NCfg) (cfg : Cfg) (z : NSt) (t dt : Nat) (h : t ∈ z.sig) :
+    (nstep n cfg z (.wake t dt)).base = step cfg z.base (.wake t dt) := by
+  simp [nstep, h]
+
+/-- **What `notify()` instead of `notify_all()` in `_window_adjust` does** (the configuration the code does NOT
+    have): two senders parked on a zero window, one adjustment of 1000 bytes wakes only the first; it sends its
+    100 bytes and returns; the second stays asleep, un-notified, with 900 bytes of window open — and its wake-up
+    is not enabled. -/
+theorem notify_one_strands_second_sender_witness :
+    let n : NCfg := { adjustAll := false, closeAll := true }
+    let z := nrun n fixedCfg (ninit (init 32768 0 32768 2 false))
+      [.send 0 100 false, .send 1 100 true, .adjust 1000, .wake 0 0, .emit 0, .wake 1 0]
+    z.base.outWin = 900 ∧ z.base.thr = [.idle (.ret 100), .waiting 100 true none none] ∧ z.sig = [] ∧
+    (nstep n fixedCfg z (.wake 1 0)).base.thr = z.base.thr := by
+  decide +kernel
+
+/-- the same schedule with the code's `notify_all`: both get through -/
+example :
+    let z := nrun codeNCfg fixedCfg (ninit (init 32768 0 32768 2 false))
+      [.send 0 100 false, .send 1 100 true, .adjust 1000, .wake 0 0, .emit 0, .wake 1 0, .emit 1]
+    z.base.outWin = 800 ∧ z.base.thr = [.idle (.ret 100), .idle (.ret 100)] ∧ z.base.wire = [.data 100, .ext 100] := by
   decide +kernel
 
 /-- **The defect (code before the repair).**  One stderr-type message of 100 bytes that the receiver handles
